@@ -48,9 +48,11 @@ class Notifications(object):
             # come in, or we have not yet had a mempool update for the
             # new block height
             return
+        # Merge rather than delete or overwrite pending sets: every touched hashX handed
+        # to us must reach the clients in some notification.
         touched = tmp.pop(height)
         for old in [h for h in tmp if h <= height]:
-            del tmp[old]
+            touched.update(tmp.pop(old))
         for old in [h for h in tbp if h <= height]:
             touched.update(tbp.pop(old))
         await self.notify(height, touched)
@@ -64,11 +66,21 @@ class Notifications(object):
         await self.notify(height, set())
 
     async def on_mempool(self, touched, height):
-        self._touched_mp[height] = touched
+        tmp = self._touched_mp
+        # Sets pending for this height, or for a greater height (which predates a reorg),
+        # are folded in so they are not overwritten or stranded.
+        for old in [h for h in tmp if h >= height]:
+            touched.update(tmp.pop(old))
+        tmp[height] = touched
         await self._maybe_notify()
 
     async def on_block(self, touched, height):
-        self._touched_bp[height] = touched
+        tmp, tbp = self._touched_mp, self._touched_bp
+        for old in [h for h in tmp if h > height]:
+            touched.update(tmp.pop(old))
+        for old in [h for h in tbp if h >= height]:
+            touched.update(tbp.pop(old))
+        tbp[height] = touched
         self._highest_block = height
         await self._maybe_notify()
 
